@@ -26,7 +26,8 @@ class _reindex(Contract):
     params = dict(self=DB)
     modifies = ("_index",)
     theories = ()
-    raises = {"AssertionError": staticmethod(lambda c: None), "OSError": staticmethod(lambda c: dict(when=z3.Not(c.self.t["_storage"].t["readable"].t)))}
+    raises = {"AssertionError": staticmethod(lambda c: None), "OSError": staticmethod(lambda c: dict(when=z3.Not(c.self.t["_storage"].t["readable"].t))),
+              "ReadFault": staticmethod(lambda c: read_fault(c))}
 
     @staticmethod
     def requires(c):
@@ -37,11 +38,27 @@ class _reindex(Contract):
         return [("valid", c.self.t["_index"].t["_valid"].t)] + dbinv(c.self)
 
 
+def read_fault(c):
+    """C13: reading storage may fail at any row (an I/O error, an undecodable row); the error reaches the caller, storage is as it was and the
+    database invariant still holds - in particular a half-built index is not left flagged valid"""
+    return dict(when=z3.BoolVal(True), exact=False, ensures=lambda c2: dbinv(c2.self) + storage_unchanged(c2))
+
+
+def untouched_or_invalidated(cc):
+    return [("storage_untouched_unless_index_invalidated", z3.Or(cc.self.t["_storage"].t["items"].t == cc.old.self.t["_storage"].t["items"].t, z3.Not(cc.self.t["_index"].t["_valid"].t)))]
+
+
+def read_fault_rewrite(c, inv=None):
+    """C13 for the rewriting operations: a read failure while scanning leaves primary storage and the index as they were; a read failure while
+    the index is rebuilt AFTER the rewrite was swapped in leaves the new contents with the index not valid - never a valid index over other contents"""
+    return dict(when=z3.BoolVal(True), exact=False, ensures=lambda c2: (inv or dbinv)(c2.self) + untouched_or_invalidated(c2))
+
+
 def _wfquery(c):
     return [("query_wellformed", wfq(c.query.t))]
 
 
-READ_RAISES = {"OSError": staticmethod(lambda c: dict(when=z3.Not(c.self.t["_storage"].t["readable"].t)))}
+READ_RAISES = {"OSError": staticmethod(lambda c: dict(when=z3.Not(c.self.t["_storage"].t["readable"].t))), "ReadFault": staticmethod(lambda c: read_fault(c))}
 
 
 @contract(_TF + "count")
@@ -351,6 +368,7 @@ class _remove_helper(Contract):
     modifies = ("_storage", "_index", "_measurements")
     theories = ("queries", "dbqueries", "count", "count_lemmas", "count_lemmas2")
     locals = dict(removed_items=SInt)
+    raises = {"ReadFault": staticmethod(lambda c: read_fault_rewrite(c, dbinv_no_temp))}
     ghost_after = [("index_rst = self._index.search", "__cut__('index_is_selection')"),
                    ("for i, item in enumerate(self._storage)", "__cut__('removed_is_selection')")]
     cuts = {"index_is_selection": lambda c: [("sets_equal", c.index_rst.t["_items"].t == c.Asel.t)],
@@ -414,7 +432,8 @@ class _remove_helper(Contract):
     loops = {0: dict(inv=lambda c: _remove_helper._inv_index(c)), 1: dict(inv=lambda c: _remove_helper._inv_scan(c))}
 
 
-WRITE_RAISES = {"OSError": staticmethod(lambda c: dict(when=z3.Not(z3.And(c.self.t["_storage"].t["readable"].t, c.self.t["_storage"].t["writable"].t))))}
+WRITE_RAISES = {"OSError": staticmethod(lambda c: dict(when=z3.Not(z3.And(c.self.t["_storage"].t["readable"].t, c.self.t["_storage"].t["writable"].t)))),
+                "ReadFault": staticmethod(lambda c: read_fault_rewrite(c))}
 
 
 @contract(_TF + "remove")
@@ -667,22 +686,19 @@ class _insert_multiple(Contract):
 # ---------------------------------------------------------------- update
 
 UPD_ARGS = ("time", "measurement", "tags", "fields", "unset_fields", "unset_tags")
-bad_update_args = z3.Function("bad_update_args", *([sort_of(AnyV)] * 6 + [z3.BoolSort()]))  # _generate_updater rejects the static arguments
+from .any_model import static_args_ok
+
+
+class _ArgCtx:
+    def __init__(self, vals):
+        for n, v in zip(UPD_ARGS, vals):
+            setattr(self, n, Val(AnyV, v))
+
+
+def bad_update_args(*vals):
+    """_generate_updater rejects the static arguments (its proved raising condition, for a well-formed query)"""
+    return z3.Not(static_args_ok(_ArgCtx(vals)))
 updater_of = z3.Function("updater_of", *([sort_of(AnyV)] * 6 + [sort_of(Upd)]))
-
-
-@contract(_TF + "_generate_updater")
-class _generate_updater(Contract):
-    """INTERFACE contract (not yet proved against its body): static arguments are validated before
-    anything else; the returned closure is a function of the arguments only."""
-    params = dict(self=DB, query=Q, time=AnyV, measurement=AnyV, tags=AnyV, fields=AnyV, unset_fields=AnyV, unset_tags=AnyV)
-    ret = Upd
-    assumed = True
-    raises = {"ValueError": staticmethod(lambda c: dict(when=bad_update_args(*[getattr(c, a).t for a in UPD_ARGS])))}
-
-    @staticmethod
-    def ensures(c):
-        return [("closure_of_arguments", c.result.t == updater_of(*[getattr(c, a).t for a in UPD_ARGS]))]
 
 
 def updated_view(items1, items0, C, u):
@@ -744,7 +760,7 @@ class _update_helper(Contract):
     raises = {"ValueError": staticmethod(lambda c: dict(when=bad_update_args(*[getattr(c, a).t for a in UPD_ARGS]),
                                                         ensures=lambda cc: [("nothing_changed", z3.And(cc.self.t["_storage"].t["items"].t == cc.old.self.t["_storage"].t["items"].t,
                                                                                                      cc.self.t["_storage"].t["temp"].t == cc.old.self.t["_storage"].t["temp"].t))] + dbinv(cc.self))),
-              "UserError": staticmethod(lambda c: _update_helper._exc(c))}
+              "UserError": staticmethod(lambda c: _update_helper._exc(c)), "ReadFault": staticmethod(lambda c: read_fault_rewrite(c, dbinv_no_temp))}
 
     @staticmethod
     def ensures(c):
